@@ -195,7 +195,7 @@ func runC20(src sim.Source, o Opts) *Result {
 		pv := sim.Pick(src, "panicvalue", []any{"boom", errors.New("boom"), customPanic{1}})
 		// the peer address: IPv4, IPv6, IPv6 with a zone, and forms without a parsable IP (unix-socket peers)
 		// ... and host:port forms whose port is empty, a service name or out of range: the address is the host part
-		remote := sim.Pick(src, "remoteaddr", []string{"192.0.2.1:1234", "192.0.2.1:1234", "[2001:db8::1]:80", "[fe80::1%eth0]:1234", "@", "", "192.0.2.1:", "192.0.2.1:http", "[2001:db8::1]:70000", "[192.0.2.9]:80", "192.0.2.7%eth1:443"})
+		remote := sim.Pick(src, "remoteaddr", []string{"192.0.2.1:1234", "192.0.2.1:1234", "[2001:db8::1]:80", "[fe80::1%eth0]:1234", "@", "", "192.0.2.1:", "192.0.2.1:http", "[2001:db8::1]:70000", "[192.0.2.9]:80", "192.0.2.7%eth1:443", "[fe80::1%25]:1234", "[fe80::1%251]:80", "[fe80::1%25eth0]:1", "[fe80::1%0]:1"})
 		remoteSeen := "<not observed>"
 		realIP := kind != model.KRedirect && src.Intn("realip", 4) == 3
 		if realIP {
@@ -203,7 +203,8 @@ func runC20(src sim.Source, o Opts) *Result {
 		}
 		scripts[len(scripts)-1] += fmt.Sprintf(" from %s (request replaced after ClientIP was asked: %v)", remote, realIP)
 		remoteWant := map[string]string{"192.0.2.1:1234": "192.0.2.1", "[2001:db8::1]:80": "2001:db8::1", "[fe80::1%eth0]:1234": "fe80::1%eth0", "@": "", "": "",
-			"192.0.2.1:": "192.0.2.1", "192.0.2.1:http": "192.0.2.1", "[2001:db8::1]:70000": "2001:db8::1", "[192.0.2.9]:80": "192.0.2.9", "192.0.2.7%eth1:443": "192.0.2.7%eth1"}[remote]
+			"192.0.2.1:": "192.0.2.1", "192.0.2.1:http": "192.0.2.1", "[2001:db8::1]:70000": "2001:db8::1", "[192.0.2.9]:80": "192.0.2.9", "192.0.2.7%eth1:443": "192.0.2.7%eth1",
+			"[fe80::1%25]:1234": "fe80::1%25", "[fe80::1%251]:80": "fe80::1%251", "[fe80::1%25eth0]:1": "fe80::1%25eth0", "[fe80::1%0]:1": "fe80::1%0"}[remote] // (zones are free text: numeric interface indexes included)
 		run := func(ww *world.World, returned *bool) world.ServeObs {
 			conn := world.NewConn()
 			log := &world.ReqLog{Inner: func(c fox.Context, h *world.Hit) {
